@@ -185,6 +185,35 @@ fn main() {
             flush_calls(&store, &mut tw, "drop-with-live-writer", &mut calls);
             scenarios += 1;
         }
+        // C'. the backend's own close() fails: it has been called, and must not be called again - neither when the
+        // Database is dropped, nor when the last reader / the deferred write transaction lets go of the storage
+        for variant in 0..6 {
+            let store = Store::new();
+            store.enable_calllog();
+            let db = builder(&cfg).create_with_backend(store.backend()).unwrap();
+            let w0 = db.begin_write().unwrap();
+            {
+                let mut t = w0.open_table(T).unwrap();
+                t.insert(1, vec![1u8; 100].as_slice()).unwrap();
+            }
+            w0.commit().unwrap();
+            store.set_fail_close(true);
+            let reader = if variant % 2 == 1 { Some(db.begin_read().unwrap()) } else { None };
+            let writer = if variant >= 4 { Some(db.begin_write().unwrap()) } else { None };
+            drop(db);
+            if let Some(w) = writer {
+                if variant == 4 { let _ = w.commit(); } else { drop(w); }
+            }
+            if let Some(r) = reader {
+                if variant == 3 {
+                    let _ = r.open_table(T).map(|t| t.get(1).map(|g| g.map(|g| g.value().len())));
+                }
+                drop(r);
+            }
+            store.mark_done();
+            flush_calls(&store, &mut tw, "close-fails", &mut calls);
+            scenarios += 1;
+        }
     } else {
         // D. a reader passes the closed-check, the Database is dropped and closed, the reader goes on
         let cfg = Config { cache_size: 0, ..Config::small(seed) };
